@@ -1,6 +1,7 @@
 package main
 
 import (
+	"go/types"
 	"go/token"
 	"strconv"
 	"strings"
@@ -69,17 +70,66 @@ func (c *Ctx) capAt(b *ssa.BasicBlock, v *X) (int64, bool) {
 		if f.Val {
 			continue
 		}
-		if m, ok := Match(Op("binop", ">", Is(v), Bind("k")), f.Cond); ok {
+		if m, ok := Match(Op("binop", ">", Is(v), Bind("k")), f.Cond); ok && !narrowedCmp(f) {
 			if k, ok := constInt(m["k"]); ok {
 				return k, true
+			}
+		}
+	}
+	// the length comes from a header-reading helper that checks it before handing it back: the cap is the one on
+	// the helper's own success return (its limit parameter read as the constant the call site passes)
+	if val, facts, ok := c.viaLenHelper(v); ok {
+		for _, f := range facts {
+			if f.Val {
+				continue
+			}
+			if m, ok := Match(Op("binop", ">", Is(val), Bind("k")), f.Cond); ok {
+				// the comparison is on the unsigned length itself: converted to a signed integer first, a length of
+				// 2^63 or more is negative and passes any limit
+				if narrowedCmp(f) {
+					continue
+				}
+				k := strip(m["k"])
+				for k != nil && k.Op == "convert" && len(k.Args) == 1 {
+					k = strip(k.Args[0])
+				}
+				if kv, ok := constInt(k); ok {
+					return kv, true
+				}
 			}
 		}
 	}
 	return -1, false
 }
 
+// viaLenHelper: v is result 0 of a helper of this module whose error result is tested; returns the value the helper's
+// single success return hands back and the facts holding there (in the caller's terms).
+func (c *Ctx) viaLenHelper(v *X) (*X, []Fact, bool) {
+	h, idx := helperCall(v)
+	if h == nil || idx != 0 {
+		return nil, nil, false
+	}
+	var val *X
+	var facts []Fact
+	n := 0
+	for _, a := range c.RetAlts(v) {
+		if a.Ret == nil || len(a.Ret.Results) != 2 || c.RetX(a.Ret, 1).Op != "nil" {
+			continue
+		}
+		n++
+		val, facts = a.Val, a.Facts
+	}
+	if n != 1 {
+		return nil, nil, false
+	}
+	return val, facts, true
+}
+
 func runC10(c *Ctx) {
 	c.Trust("go/ssa", "cbor-gen primitives", "encoding/json")
+	// the JSON form carries every field, empty or not (a decoder that reuses its target then overwrites all of them)
+	wireNamesAsReference(c, "C10.B2-json-wire-names", "announce/message.Message")
+	c.Floor("C10.B2-json-wire-names", 1)
 	enc := c.Func(msgPkg, "Message.MarshalCBOR")
 	dec := c.Func(msgPkg, "Message.UnmarshalCBOR")
 	if enc == nil || dec == nil {
@@ -338,6 +388,23 @@ func runC10(c *Ctx) {
 func c10MajorFor(c *Ctx, b *ssa.BasicBlock, n *X) string {
 	n = strip(n)
 	if n.Op != "extract" {
+		return "?"
+	}
+	if val, facts, ok := c.viaLenHelper(n); ok {
+		// the major type is tested inside the length-reading helper, against the constant the call site passes
+		if vs := strip(val); vs != nil && vs.Op == "extract" && len(vs.Args) == 1 {
+			for _, f := range facts {
+				if m, ok := Match(Bin("==", Extract("0", Is(vs.Args[0])), Bind("k")), f.Cond); ok && f.Val {
+					k := strip(m["k"])
+					for k != nil && k.Op == "convert" && len(k.Args) == 1 {
+						k = strip(k.Args[0])
+					}
+					if kv, ok := constInt(k); ok {
+						return itoa(int(kv))
+					}
+				}
+			}
+		}
 		return "?"
 	}
 	hdr := n.Args[0]
@@ -774,6 +841,30 @@ func freshBuffer(b *X) bool {
 	case b.Op == "alloc" || b.Op == "complit" || b.Op == "var" || b.Op == "new":
 		_, isAl := b.V.(*ssa.Alloc)
 		return isAl || b.Cell != nil
+	}
+	return false
+}
+
+// narrowedCmp: the comparison behind fact f is made on an unsigned value converted to a signed type first (the
+// expression trees elide conversions): a length of 2^63 or more is then negative and passes any upper limit.
+func narrowedCmp(f Fact) bool {
+	if f.If == nil {
+		return false
+	}
+	bo, isBin := f.If.Cond.(*ssa.BinOp)
+	if !isBin {
+		return false
+	}
+	for _, opnd := range []ssa.Value{bo.X, bo.Y} {
+		if cv, isConv := opnd.(*ssa.Convert); isConv {
+			from, ok1 := cv.X.Type().Underlying().(*types.Basic)
+			to, ok2 := cv.Type().Underlying().(*types.Basic)
+			if ok1 && ok2 && from.Info()&types.IsUnsigned != 0 && to.Info()&types.IsInteger != 0 && to.Info()&types.IsUnsigned == 0 {
+				if _, isConst := cv.X.(*ssa.Const); !isConst {
+					return true
+				}
+			}
+		}
 	}
 	return false
 }
